@@ -423,7 +423,7 @@ Proof.
       assert (Hm1 : out_mode (buf (with_buf c1 b)) = true).
       { destruct c1; cbn in *. destruct Hf as [_ [_ [_ [H4 _]]]]. congruence. }
       destruct (IH _ c' Hm1 H) as [I1 I2]. split; [|exact I2].
-      rewrite I1. destruct c1 as [bb mo se rs fa]; cbn [with_buf buf] in *. rewrite N1. apply fsame_content. exact Hf.
+      rewrite I1. destruct c1 as [bb mo se rs fa]; cbn [with_buf buf] in *. rewrite N1. rewrite <- Er. apply fsame_content. exact Hf.
 Qed.
 
 Lemma flat_not_reverse : forall lk, flat_lookup lk = true -> lookup_is_reverse lk = false.
@@ -440,10 +440,10 @@ Theorem flat_apply_string_identity : forall f e lk c c' l,
 Proof.
   intros f e lk c c' l Hflat [Hp [Hd [Hr [Hm Hok]]]] H. unfold apply_string in H.
   destruct ((blen (buf c) =? 0)%nat || (le_mask e =? 0))%bool.
-  - inversion H; subst. unfold arr. rewrite Hp, Hr. reflexivity.
+  - inversion H; subst c'. unfold arr. rewrite Hp, Hr. reflexivity.
   - rewrite (flat_not_reverse lk Hflat) in H. cbn [negb] in H. rewrite Hm in H.
     apply bind_ok in H. destruct H as [c1 [Hfw H]]. apply bind_ok in H. destruct H as [s [Hs H]].
-    destruct s as [b2|]; [|discriminate]. inversion H; subst. clear H.
+    destruct s as [b2|]; [|discriminate]. inversion H; subst c'. clear H.
     assert (Hm0 : out_mode (buf (with_buf c (clear_output (buf c)))) = true).
     { destruct c as [bb mo se rs fa]; cbn [with_buf buf]. unfold clear_output. cbn in Hm. rewrite Hm. reflexivity. }
     destruct (flat_forward_identity f e lk Hflat _ _ _ Hm0 Hfw) as [Hc Hm1].
@@ -472,7 +472,7 @@ Definition noOOF {A} (r : result A) : Prop := r <> Error OutOfFuel.
 Lemma noOOF_bind : forall {A B} (r : result A) (k : A -> result B),
   noOOF r -> (forall a, r = Ok a -> noOOF (k a)) -> noOOF (bind r k).
 Proof.
-  intros A B [a|e] k H1 H2; cbn [bind]; [apply H2; reflexivity|]. intros E. apply H1. exact E.
+  intros A B [a|e] k H1 H2; cbn [bind]; [apply H2; reflexivity|]. intros E. apply H1. inversion E. reflexivity.
 Qed.
 
 Lemma noOOF_ok : forall {A} (a : A), noOOF (Ok a). Proof. intros A a E. discriminate E. Qed.
@@ -504,7 +504,7 @@ Section Total.
                      /\ (applied = true -> (length (rest (buf c1)) < length (rest (buf c)))%nat \/ ok (buf c1) = false)
                      /\ (applied = false -> length (rest (buf c1)) = length (rest (buf c)))).
         { destruct (glyph_enabled f e (lookup_props_of lk) x); [eapply Hstep; eassumption|].
-          inversion H1; subst. repeat split; [exact Hm|discriminate|reflexivity]. }
+          inversion H1; subst. split; [exact Hm|split; [discriminate|reflexivity]]. }
         destruct Hs as [Hm1 [Ht Hf]]. rewrite Er in *. cbn [length] in *. destruct applied.
         * apply IH; [exact Hm1|]. destruct (Ht eq_refl) as [Hlt|Hk]; [right; lia|left; exact Hk].
         * apply noOOF_bind.
@@ -516,3 +516,150 @@ Section Total.
              destruct N3 as [Hlt|Hk]; [right; lia|left; exact Hk].
   Qed.
 End Total.
+
+(* ---------- no primitive on the flat path reports OutOfFuel ---------- *)
+
+Ltac case_noOOF :=
+  unfold noOOF; repeat (match goal with
+    | |- context [match ?x with _ => _ end] => destruct x eqn:?
+    end); try (intros Eoof; discriminate Eoof).
+
+Lemma noOOF_find_min : forall lvl l s e init, noOOF (find_min_cluster lvl l s e init).
+Proof. intros. unfold find_min_cluster. case_noOOF. Qed.
+
+Lemma noOOF_infos_set : forall lvl l s e c m, noOOF (infos_set_glyph_flags lvl l s e c m).
+Proof. intros. unfold infos_set_glyph_flags. case_noOOF. Qed.
+
+Lemma noOOF_sgf : forall b m s e i fo, noOOF (set_glyph_flags' b m s e i fo).
+Proof.
+  intros. unfold set_glyph_flags'.
+  repeat (match goal with
+          | |- noOOF (if ?x then _ else _) => destruct x
+          | |- noOOF (Ok _) => apply noOOF_ok
+          | |- noOOF (Error _) => intros Eoof; discriminate Eoof
+          | |- noOOF (bind _ _) => apply noOOF_bind; [first [apply noOOF_find_min|apply noOOF_infos_set]|intros ? ?]
+          | |- noOOF (let _ := _ in _) => cbv zeta
+          end).
+Qed.
+
+Lemma noOOF_utb : forall b s e, noOOF (utb b s e). Proof. intros. apply noOOF_sgf. Qed.
+Lemma noOOF_utb_out : forall b s e, noOOF (utb_out b s e). Proof. intros. apply noOOF_sgf. Qed.
+Lemma noOOF_utc : forall b s e, noOOF (utc b s e).
+Proof. intros. unfold utc. destruct (produce_concat b); [apply noOOF_sgf|apply noOOF_ok]. Qed.
+Lemma noOOF_utc_out : forall b s e, noOOF (utc_out b s e).
+Proof. intros. unfold utc_out. destruct (produce_concat b); [apply noOOF_sgf|apply noOOF_ok]. Qed.
+
+Lemma noOOF_move_to : forall b i, noOOF (move_to b i).
+Proof. intros. unfold move_to. case_noOOF. Qed.
+
+Lemma noOOF_move_to_z : forall b z, noOOF (move_to_z b z).
+Proof.
+  intros. unfold move_to_z.
+  destruct (Z.of_nat (length (pre b) + length (rest b)) <? z)%Z; [|apply noOOF_move_to].
+  destruct (out_mode b); [destruct (ok b)|]; intros E; discriminate E.
+Qed.
+
+Lemma noOOF_match_input : forall f e props b preds, noOOF (match_input f e props b preds).
+Proof.
+  intros. unfold match_input. destruct (MAX_CONTEXT_LENGTH <? S (length preds))%nat; [apply noOOF_ok|].
+  destruct (rest b); [intros E; discriminate E|apply noOOF_ok].
+Qed.
+
+Lemma noOOF_cur : forall b, noOOF (cur b).
+Proof. intros. unfold cur. destruct (rest b); [intros E; discriminate E|apply noOOF_ok]. Qed.
+
+Lemma noOOF_apply_lookup_nil : forall rec c ps en, noOOF (apply_lookup rec c ps en []).
+Proof.
+  intros. unfold apply_lookup. cbn [apply_lookup_records bind]. apply noOOF_bind; [apply noOOF_move_to_z|].
+  intros [r b'] _. apply noOOF_ok.
+Qed.
+
+Lemma noOOF_apply_context_flat : forall f e props rec cof preds c, noOOF (apply_context f e props rec cof preds [] c).
+Proof.
+  intros. unfold apply_context. apply noOOF_bind; [apply noOOF_match_input|]. intros [ps en t|en] _.
+  - apply noOOF_bind; [apply noOOF_utb|]. intros b _. apply noOOF_bind; [apply noOOF_apply_lookup_nil|]. intros; apply noOOF_ok.
+  - destruct cof; [|apply noOOF_ok]. apply noOOF_bind; [apply noOOF_utc|]. intros; apply noOOF_ok.
+Qed.
+
+Lemma noOOF_apply_chain_flat : forall f e props rec back inp ahead c,
+  noOOF (apply_chain_context f e props rec back inp ahead [] c).
+Proof.
+  intros. unfold apply_chain_context. apply noOOF_bind; [apply noOOF_match_input|]. intros m _.
+  assert (Hfail : forall ei, noOOF (do b' <- utc (buf c) (dead (buf c)) ei; Ok (false, with_buf c b'))).
+  { intros ei. apply noOOF_bind; [apply noOOF_utc|]. intros; apply noOOF_ok. }
+  destruct m as [ps me t|en]; [|apply Hfail].
+  destruct (match_lookahead f e props (buf c) ahead me); [|apply Hfail].
+  destruct (match_backtrack f e props (buf c) back).
+  - apply noOOF_bind; [apply noOOF_utb_out|]. intros b _. apply noOOF_bind; [apply noOOF_apply_lookup_nil|]. intros; apply noOOF_ok.
+  - apply noOOF_bind; [apply noOOF_utc_out|]. intros; apply noOOF_ok.
+Qed.
+
+Lemma noOOF_first_apply : forall {A} (ap : A -> actx -> result (bool * actx)) (rules : list A),
+  (forall r c, In r rules -> noOOF (ap r c)) -> forall c, noOOF (first_apply ap rules c).
+Proof.
+  intros A ap. induction rules as [|r t IH]; intros H c; cbn [first_apply]; [apply noOOF_ok|].
+  apply noOOF_bind; [apply H; left; reflexivity|]. intros [a c1] _. cbn [fst snd].
+  destruct a; [apply noOOF_ok|]. apply IH. intros r0 c0 Hin. apply H. right; exact Hin.
+Qed.
+
+Lemma noOOF_subtable_flat : forall f e props nest rec st c,
+  flat_ctx st = true -> noOOF (subtable_apply f e props nest rec st c).
+Proof.
+  intros f e props nest rec st c Hflat.
+  destruct st; try discriminate Hflat; cbn [subtable_apply flat_ctx] in *.
+  - apply noOOF_bind; [apply noOOF_cur|]. intros x _. destruct (coverage_index cov (gid x)) as [k|]; [|apply noOOF_ok].
+    apply noOOF_first_apply. intros r c0 Hin.
+    assert (Er : sr_lookups r = []).
+    { destruct (nth_error rule_sets (N.to_nat k)) as [rs|] eqn:En; [|destruct Hin].
+      pose proof (nth_error_forallb _ _ _ _ Hflat En) as Hrs. rewrite forallb_forall in Hrs. specialize (Hrs r Hin).
+      destruct (sr_lookups r); [reflexivity|discriminate]. }
+    rewrite Er. apply noOOF_apply_context_flat.
+  - apply noOOF_bind; [apply noOOF_cur|]. intros x _. destruct (coverage_index cov (gid x)) as [k|]; [|apply noOOF_ok].
+    apply noOOF_first_apply. intros r c0 Hin.
+    assert (Er : sr_lookups r = []).
+    { unfold opt_rules in Hin. destruct (nth_error rule_sets (N.to_nat (class_of cd (gid x)))) as [[rs|]|] eqn:En; try destruct Hin.
+      pose proof (nth_error_forallb _ _ _ _ Hflat En) as Hrs. cbn in Hrs. rewrite forallb_forall in Hrs. specialize (Hrs r Hin).
+      destruct (sr_lookups r); [reflexivity|discriminate]. }
+    rewrite Er. apply noOOF_apply_context_flat.
+  - destruct lookups; [|discriminate]. destruct covs as [|cov more]; [apply noOOF_ok|].
+    apply noOOF_bind; [apply noOOF_cur|]. intros x _. destruct (coverage_index cov (gid x)); [|apply noOOF_ok].
+    apply noOOF_apply_context_flat.
+  - apply noOOF_bind; [apply noOOF_cur|]. intros x _. destruct (coverage_index cov (gid x)) as [k|]; [|apply noOOF_ok].
+    apply noOOF_first_apply. intros r c0 Hin.
+    assert (Er : cr_lookups r = []).
+    { destruct (nth_error rule_sets (N.to_nat k)) as [rs|] eqn:En; [|destruct Hin].
+      pose proof (nth_error_forallb _ _ _ _ Hflat En) as Hrs. rewrite forallb_forall in Hrs. specialize (Hrs r Hin).
+      destruct (cr_lookups r); [reflexivity|discriminate]. }
+    rewrite Er. apply noOOF_apply_chain_flat.
+  - apply noOOF_bind; [apply noOOF_cur|]. intros x _. destruct (coverage_index cov (gid x)) as [k|]; [|apply noOOF_ok].
+    apply noOOF_first_apply. intros r c0 Hin.
+    assert (Er : cr_lookups r = []).
+    { unfold opt_rules in Hin. destruct (nth_error rule_sets (N.to_nat (class_of icd (gid x)))) as [[rs|]|] eqn:En; try destruct Hin.
+      pose proof (nth_error_forallb _ _ _ _ Hflat En) as Hrs. cbn in Hrs. rewrite forallb_forall in Hrs. specialize (Hrs r Hin).
+      destruct (cr_lookups r); [reflexivity|discriminate]. }
+    rewrite Er. apply noOOF_apply_chain_flat.
+  - destruct lookups; [|discriminate]. destruct input as [|cov more]; [apply noOOF_ok|].
+    apply noOOF_bind; [apply noOOF_cur|]. intros x _. destruct (coverage_index cov (gid x)); [|apply noOOF_ok].
+    apply noOOF_apply_chain_flat.
+Qed.
+
+(* the forward pass of a contextual lookup without nested records terminates within `length input` iterations:
+   with at least that much fuel apply_forward never reports OutOfFuel *)
+Theorem flat_forward_total : forall f e lk fuel c,
+  flat_lookup lk = true -> out_mode (buf c) = true -> (length (rest (buf c)) <= fuel)%nat ->
+  apply_forward fuel f e lk c <> Error OutOfFuel.
+Proof.
+  intros f e lk fuel c Hflat Hm Hfuel.
+  apply (forward_total_gen f e lk); [| |exact Hm|right; exact Hfuel].
+  - intros c0 _. unfold top_apply, lookup_apply. apply noOOF_first_apply. intros st c1 Hin.
+    unfold flat_lookup in Hflat. rewrite forallb_forall in Hflat. apply noOOF_subtable_flat. apply Hflat; exact Hin.
+  - intros c0 applied c0' Hm0 H0. destruct (top_apply_flat f e lk c0 applied c0' Hflat Hm0 H0) as [Hf Ha].
+    destruct applied.
+    + destruct (Ha eq_refl) as [_ [A2 A3]]. split; [congruence|]. split; [intros _; exact A3|discriminate].
+    + destruct (Hf eq_refl) as [_ [F2 [_ [F4 _]]]]. split; [congruence|]. split; [discriminate|].
+      intros _. apply msame_length. exact F2.
+Qed.
+
+(* the fuel apply_string supplies is enough *)
+Lemma forward_fuel_enough : forall b, (length (rest b) <= forward_fuel b)%nat.
+Proof. intros b. unfold forward_fuel. rewrite app_length. lia. Qed.
